@@ -494,3 +494,30 @@ def hash_collisions(name, same_length=True, per_hash=1):
                         break
     _COLL_CACHE[key] = out
     return out
+
+
+def novel_spellings(schema):
+    """Reads coq/Gen/Generated.v and returns, for every string-identified enumeration of the specification, the spellings the
+    SOURCE's two conversion tables and string constants mention that the specification does not list: [(type name, spelling)].
+    Empty on the unchanged tree.  Used only to aim the search for a failing input when a table obligation no longer holds."""
+    import os, re
+    path = os.path.join(os.path.dirname(os.path.dirname(os.path.abspath(__file__))), "coq", "Gen", "Generated.v")
+    try:
+        text = open(path).read()
+    except OSError:
+        return []
+    out = []
+    for name, d in schema.items():
+        if d.get("kind") != "strenum":
+            continue
+        known = {sp for _, sp in d["variants"]}
+        short = name.split("::")[-1]
+        mod = "::".join(name.split("::")[:-1])
+        found = []
+        for m in re.finditer(r'RMatch "' + re.escape(mod) + r'::(?:TryFrom<&str> for ' + re.escape(short) + r'|From<' + re.escape(short) + r'> for &str)" \[(.*?)\]\)', text, re.S):
+            found += re.findall(r'M[PB]_Str "([^"]*)"', m.group(1))
+        found += re.findall(r'\("' + re.escape(name) + r'::[A-Z0-9_]+", "([^"]*)"\)', text)
+        for sp in found:
+            if sp not in known and (name, sp) not in out:
+                out.append((name, sp))
+    return out
